@@ -43,53 +43,75 @@ fn spawn_child(args: &[String]) -> Result<std::process::Child, String> {
 pub struct ChildRun {
     pub code: Option<i32>,
     pub signal: Option<i32>,
+    pub timed_out: bool,
     pub last_chunk: BTreeMap<u64, u64>,
     pub last_run: Option<u64>,
     pub lines: Vec<String>,
 }
 
 /// Run a child, forwarding its ordinary output (if `forward`) and tracking its announcements.
-fn run_child(args: &[String], forward: bool) -> Result<ChildRun, String> {
+/// With `timeout_s`, a child that is still alive after that much wall time is killed.
+fn run_child(args: &[String], forward: bool, timeout_s: Option<u64>) -> Result<ChildRun, String> {
     let mut ch = spawn_child(args)?;
     let so = ch.stdout.take().ok_or("no stdout")?;
-    let mut last_chunk = BTreeMap::new();
-    let mut last_run = None;
-    let mut lines = Vec::new();
-    for line in BufReader::new(so).lines() {
-        let Ok(line) = line else { break };
-        if let Some(rest) = line.strip_prefix("@@SIM ") {
-            let p: Vec<&str> = rest.split_whitespace().collect();
-            match p.first().copied() {
-                Some("B") if p.len() >= 3 => {
-                    if let (Ok(w), Ok(c)) = (p[1].parse::<u64>(), p[2].parse::<u64>()) {
-                        last_chunk.insert(w, c);
+    let reader = std::thread::spawn(move || {
+        let mut last_chunk = BTreeMap::new();
+        let mut last_run = None;
+        let mut lines = Vec::new();
+        for line in BufReader::new(so).lines() {
+            let Ok(line) = line else { break };
+            if let Some(rest) = line.strip_prefix("@@SIM ") {
+                let p: Vec<&str> = rest.split_whitespace().collect();
+                match p.first().copied() {
+                    Some("B") if p.len() >= 3 => {
+                        if let (Ok(w), Ok(c)) = (p[1].parse::<u64>(), p[2].parse::<u64>()) {
+                            last_chunk.insert(w, c);
+                        }
+                    }
+                    Some("R") if p.len() >= 2 => last_run = p[1].parse::<u64>().ok(),
+                    _ => {}
+                }
+            } else {
+                if forward {
+                    println!("{line}");
+                    let _ = std::io::stdout().flush();
+                }
+                lines.push(line);
+            }
+        }
+        (last_chunk, last_run, lines)
+    });
+    let t0 = std::time::Instant::now();
+    let mut timed_out = false;
+    let st = loop {
+        match ch.try_wait().map_err(|e| e.to_string())? {
+            Some(st) => break st,
+            None => {
+                if let Some(t) = timeout_s {
+                    if t0.elapsed().as_secs() >= t {
+                        timed_out = true;
+                        let _ = ch.kill();
+                        break ch.wait().map_err(|e| e.to_string())?;
                     }
                 }
-                Some("R") if p.len() >= 2 => last_run = p[1].parse::<u64>().ok(),
-                _ => {}
+                std::thread::sleep(std::time::Duration::from_millis(10));
             }
-        } else {
-            if forward {
-                println!("{line}");
-                let _ = std::io::stdout().flush();
-            }
-            lines.push(line);
         }
-    }
-    let st = ch.wait().map_err(|e| e.to_string())?;
+    };
+    let (last_chunk, last_run, lines) = reader.join().map_err(|_| "reader thread".to_string())?;
     // `sh -c exec` replaces the shell, so the status is the child's own; a shell that did not
     // exec reports a signal death as 128+n.
     let (code, signal) = match (st.code(), st.signal()) {
         (Some(c), _) if c > 128 => (None, Some(c - 128)),
         (c, s) => (c, s),
     };
-    Ok(ChildRun { code, signal, last_chunk, last_run, lines })
+    Ok(ChildRun { code, signal, timed_out, last_chunk, last_run, lines })
 }
 
 /// Entry point of `simcheck run <prop> <tier>` for the batch properties.
 pub fn run(cfg: &Config) -> i32 {
     let args = vec!["run-child".to_string(), cfg.prop.clone(), cfg.tier.clone()];
-    let r = match run_child(&args, true) {
+    let r = match run_child(&args, true, None) {
         Ok(r) => r,
         Err(e) => {
             eprintln!("harness error: cannot run child: {e}");
@@ -108,7 +130,7 @@ pub fn run(cfg: &Config) -> i32 {
     chunks.dedup();
     for c in chunks {
         let a = vec!["careful".to_string(), cfg.prop.clone(), cfg.tier.clone(), c.to_string()];
-        match run_child(&a, false) {
+        match run_child(&a, false, Some(600)) {
             Ok(cr) if cr.code == Some(0) => continue,
             Ok(cr) => {
                 if let Some(i) = cr.last_run {
@@ -130,7 +152,7 @@ fn crashes(case: &Case, dir: &str) -> Option<String> {
     let tmp = format!("{dir}/replays/.crash-candidate-{}.json", std::process::id());
     let j = J::obj().with("case", case.to_json());
     std::fs::write(&tmp, j.to_pretty()).ok()?;
-    let r = run_child(&["replay-child".to_string(), tmp.clone()], false).ok();
+    let r = run_child(&["replay-child".to_string(), tmp.clone()], false, Some(120)).ok();
     let _ = std::fs::remove_file(&tmp);
     let r = r?;
     match (r.code, r.signal) {
@@ -267,13 +289,19 @@ pub fn careful(cfg: &Config, chunk: u64) -> i32 {
 
 /// `simcheck --replay <file>` for batch properties: execute in a child so that a crash is observed.
 pub fn replay(path: &str, prop: &str) -> i32 {
-    let r = match run_child(&["replay-child".to_string(), path.to_string()], true) {
+    let limit: u64 = std::env::var("SIM_STALL_MS").ok().and_then(|v| v.parse::<u64>().ok()).map_or(20, |ms| ms.div_ceil(1000).max(1));
+    let r = match run_child(&["replay-child".to_string(), path.to_string()], true, Some(limit)) {
         Ok(r) => r,
         Err(e) => {
             eprintln!("harness error: {e}");
             return 2;
         }
     };
+    if r.timed_out {
+        println!("violation class=HANG(watchdog) detail=the process replaying {path} did not finish within {limit} s of wall time");
+        println!("VIOLATION property={prop} replay={path}");
+        return 1;
+    }
     if let Some(c) = r.code {
         if (0..=2).contains(&c) {
             return c;
